@@ -179,6 +179,10 @@ def windows(origin, cons):
                 out.append(f"[{inner}]" if origin == "list" else f"({inner}{',' if n == 1 else ''})")
         out += ["[float('nan'), float('nan')]" if origin == "list" else "(float('nan'), float('nan'))",
                 "[[1], [1]]" if origin == "list" else "([1], [1])", "[None, None]" if origin == "list" else "(None, 0)"]
+        # unhashable items: equal ones that print differently, different ones, a string that looks like the repr of an item
+        more = ["[[1], [1.0]]", "[[True], [1]]", "[{'a': 1, 'b': 2}, {'b': 2, 'a': 1}]", "['[1]', [1]]", "[[1], [2]]", "[{'a': 1}, {'a': 2}]",
+                "[{1}, {1.0}]", "[[1, [2]], [1, [2]]]", "[[], []]", "[[], {}]"]
+        out += more if origin == "list" else ["(" + m[1:-1] + ")" for m in more]
         return out
     if origin in ("set", "frozenset"):
         elems = ["0", "1", "'a'", "2.5"]
@@ -245,7 +249,10 @@ def _enum_class(cons):
     return None
 
 
-def decl_expr(origin, cons):
+def decl_expr(origin, cons, inherited=False):
+    if inherited:
+        # every constraint in a rule of its own, combined by inheritance with an empty body
+        return "RM(%s, %s)" % (origin, ", ".join(f"dict({c}={b})" for c, b in cons))
     return "RC(%s, %s)" % (origin, ", ".join(f"{c}={b}" for c, b in cons))
 
 
@@ -307,13 +314,17 @@ def same(result, v):
     return canon(result) == canon(v)
 
 
+_INHERITED = [False]
+
+
 def script(origin, cons, vx, expected, check):
+    _decl = decl_expr(origin, cons, _INHERITED[0])
     return "\n".join([
         "import sys", "sys.path.insert(0, '/verif')", "from utmc.ns import *",
-        f"T_ = {decl_expr(origin, cons)}", f"v = {vx}",
+        f"T_ = {_decl}", f"v = {vx}",
         "try:", "    r = T_(v); ok = True", "except exc.ParseError as e:", "    r = e; ok = False",
         "inst = isinstance(v, T_)",
-        f"print('declared', {decl_expr(origin, cons)!r}, 'value', repr(v), '-> accepted' if ok else '-> rejected', repr(r)[:200], 'isinstance:', inst)",
+        f"print('declared', {_decl!r}, 'value', repr(v), '-> accepted' if ok else '-> rejected', repr(r)[:200], 'isinstance:', inst)",
         f"print('reference verdict (documented constraint semantics):', {expected!r})",
         f"bad = {check}",
         "sys.exit(1 if bad else 0)"]) + "\n"
@@ -323,15 +334,20 @@ def run_shard(shard, tier):
     origin, lo, hi = shard
     acc = Acc()
     sets = constraint_sets(origin, _arity(origin, tier))[lo:hi]
-    for cons in sets:
-        dx = decl_expr(origin, cons)
+    work = [(cons, False) for cons in sets]
+    # pairs of different constraints once more, inherited from two rules (every 3rd pair in the quick tier)
+    work += [(cons, True) for i, cons in enumerate(sets) if len(cons) == 2 and len({c for c, _ in cons}) == 2
+             and (tier == "thorough" or i % 3 == 0)]
+    for cons, inherited in work:
+        dx = decl_expr(origin, cons, inherited)
+        _INHERITED[0] = inherited
         try:
             T = ev(dx)
         except Exception as e:
             acc.extra["constraint_sets_rejected_at_declaration"] += 1
             continue
         acc.extra["constraint_sets_accepted"] += 1
-        names = ",".join(c for c, _ in cons)
+        names = ",".join(c for c, _ in cons) + ("@inherited" if inherited else "")
         for vx in windows(origin, cons):
             v = ev(vx)
             exp = reference(origin, cons, v)
